@@ -63,11 +63,14 @@ def part_histories(chk, tmp):
 
     # directed
     for label, spec, ops, valid in sd.directed_histories():
-        snaps, err = sd.run_history(spec, ops, tmp)
+        mid = []
+        snaps, err = sd.run_history(spec, ops, tmp, mid)
         done_ops = ops[:len(snaps) - 1 + (1 if err else 0)]
         cmp_t.add(_inp(spec, done_ops), sd.trace_term(snaps, err), {"label": label, "spec": spec, "ops": done_ops, "impl_error": err,
                                                                     "impl_last": snaps[-1]})
         if valid:
+            _report(chk, sd.unlocked_problems(ops, mid), "Cluster (directed history %s, reader scheduled after an unlocked write)" % label,
+                    spec, ops, [m[2] for m in mid], err)
             rows_after = [set()]
             for o in ops[:len(snaps) - 1]:
                 r = set(rows_after[-1])
@@ -84,8 +87,11 @@ def part_histories(chk, tmp):
     # valid random histories
     n_valid = 120 if quick else 2500
     for k in range(n_valid):
-        spec, ops, snaps, err, rows_after = sd.gen_valid_history(rng, tmp, max_ops=10 if quick else 14)
+        spec, ops, snaps, err, rows_after, mid = sd.gen_valid_history(rng, tmp, max_ops=10 if quick else 14)
         _report(chk, sd.history_problems(ops, snaps, err, rows_after), "Cluster (history of valid operations)", spec, ops, snaps, err)
+        _report(chk, sd.unlocked_problems(ops, mid), "Cluster (history of valid operations, reader scheduled after an unlocked write)",
+                spec, ops, [m[2] for m in mid], err)
+        dist["unlocked_writes_probed"] = dist.get("unlocked_writes_probed", 0) + len(mid)
         cmp_t.add(_inp(spec, ops), sd.trace_term(snaps, err), {"kind": "valid", "spec": spec, "ops": ops, "impl_error": err,
                                                                "impl_last": snaps[-1]})
         cmp_ok.add(_inp(spec, ops), "true", {"kind": "valid", "spec": spec, "ops": ops})
@@ -139,6 +145,7 @@ def part_submissions(chk, tmp):
         if r["error"]:
             probs.append(("round-exception", "a submitter process died: " + r["error"]))
             dist["round_exceptions"] += 1
+        probs += sd.unlocked_problems(ops + [{"op": "?"}], r["mid"])
         for ev in r["events"]:
             if ev[0] == "unexpected-premutation":
                 probs.append(("unexpected-premutation", "job %s changed state %s -> %s before update_job_status without being canceled" % ev[1:]))
@@ -167,6 +174,28 @@ def part_submissions(chk, tmp):
     _finish_cmp(chk, cmp_ok, "the Cluster calls of real submissions satisfy Status.run_ok (round_ok holds for real rounds)",
                 "round_ok vs real HpcSubmitter.run rounds")
     chk.notes.setdefault("input_distribution", {})["submissions"] = dist
+
+
+def part_exhaustive(chk, tmp):
+    """every round over a two-job table (2520 combinations of arguments and pre-mutations from five base
+    states): thorough = all, quick = a sample"""
+    cases = list(sd.exhaustive_rounds())
+    total = len(cases)
+    if chk.tier == "quick":
+        cases = chk.rng.sample(cases, 150)
+    cmp_t = _cmp_trace("c09_exh")
+    errs = {}
+    for spec, ops in cases:
+        snaps, err = sd.run_history(spec, ops, tmp)
+        done_ops = ops[:len(snaps) - 1 + (1 if err else 0)]
+        cmp_t.add(_inp(spec, done_ops), sd.trace_term(snaps, err), {"kind": "exhaustive", "spec": spec, "ops": done_ops,
+                                                                    "impl_error": err, "impl_last": snaps[-1]})
+        chk.count(("exh", json.dumps(ops)))
+        errs[str(err)] = errs.get(str(err), 0) + 1
+    _finish_cmp(chk, cmp_t, "Status.trace vs Cluster.update_job_status, small scope (%d of %d argument combinations)" % (len(cases), total),
+                "correspondence Status.round vs Cluster._update_job_status (small scope)")
+    chk.notes.setdefault("input_distribution", {})["exhaustive_rounds"] = {"total": total, "run": len(cases), "outcomes": errs}
+    chk.notes["exhaustive_two_job_rounds"] = (chk.tier != "quick")
 
 
 def part_regression_old_resubmit(chk, tmp):
@@ -202,7 +231,7 @@ def run(chk):
     logging.disable(logging.CRITICAL)
     tmp = tempfile.mkdtemp(prefix="verif_c09_")
     try:
-        parts = [part_enum, lambda c: part_histories(c, tmp), lambda c: part_regression_old_resubmit(c, tmp),
+        parts = [part_enum, lambda c: part_histories(c, tmp), lambda c: part_regression_old_resubmit(c, tmp), lambda c: part_exhaustive(c, tmp),
                  lambda c: part_submissions(c, tmp)]
         for part in parts:
             if not proofs_ok and not (core.THEORIES / "Status.vo").exists():
